@@ -309,6 +309,9 @@ func Fill(r *rand.Rand, v reflect.Value, class ValueClass, depth int) {
 		if depth > 6 {
 			n = min(n, 1)
 		}
+		if t.Key().Kind() != reflect.String {
+			n = 0 // unsupported key kind (only met in the unsupported-types corpus)
+		}
 		for i := 0; i < n; i++ {
 			k := reflect.New(t.Key()).Elem()
 			k.SetString(Pick(r, Names) + fmt.Sprint(i))
